@@ -24,6 +24,7 @@
  * SOFTWARE.
  */
 
+#include <stdbool.h>
 #include <stddef.h>
 
 #include "compiler.h"
@@ -34,6 +35,20 @@
 #include "response.h"
 #include "json/cJSON.h"
 
+static bool add_item_checked(cJSON *object, const char *key, cJSON *item)
+{
+	if (unlikely(item == NULL)) {
+		return false;
+	}
+
+	if (unlikely(!cJSON_AddItemToObject(object, key, item))) {
+		cJSON_Delete(item);
+		return false;
+	}
+
+	return true;
+}
+
 static cJSON *create_info(void)
 {
 	cJSON *root = cJSON_CreateObject();
@@ -41,47 +56,34 @@ static cJSON *create_info(void)
 		return NULL;
 	}
 
-	cJSON *name = cJSON_CreateString(CJET_NAME);
-	if (name == NULL) {
+	if (unlikely(!add_item_checked(root, "name", cJSON_CreateString(CJET_NAME)))) {
 		goto error;
 	}
-	cJSON_AddItemToObject(root, "name", name);
 
-	cJSON *version = cJSON_CreateString(CJET_VERSION);
-	if (version == NULL) {
+	if (unlikely(!add_item_checked(root, "version", cJSON_CreateString(CJET_VERSION)))) {
 		goto error;
 	}
-	cJSON_AddItemToObject(root, "version", version);
 
-	cJSON *protocol_version = cJSON_CreateString("1.0.0");
-	if (protocol_version == NULL) {
+	if (unlikely(!add_item_checked(root, "protocolVersion", cJSON_CreateString("1.0.0")))) {
 		goto error;
 	}
-	cJSON_AddItemToObject(root, "protocolVersion", protocol_version);
 
 	cJSON *features = cJSON_CreateObject();
-	if (unlikely(features == NULL)) {
+	if (unlikely(!add_item_checked(root, "features", features))) {
 		goto error;
 	}
-	cJSON_AddItemToObject(root, "features", features);
 
-	cJSON *batches = cJSON_CreateTrue();
-	if (unlikely(batches == NULL)) {
+	if (unlikely(!add_item_checked(features, "batches", cJSON_CreateTrue()))) {
 		goto error;
 	}
-	cJSON_AddItemToObject(features, "batches", batches);
 
-	cJSON *authentication = cJSON_CreateTrue();
-	if (unlikely(authentication == NULL)) {
+	if (unlikely(!add_item_checked(features, "authentication", cJSON_CreateTrue()))) {
 		goto error;
 	}
-	cJSON_AddItemToObject(features, "authentication", authentication);
 
-	cJSON *fetch = cJSON_CreateString("full");
-	if (fetch == NULL) {
+	if (unlikely(!add_item_checked(features, "fetch", cJSON_CreateString("full")))) {
 		goto error;
 	}
-	cJSON_AddItemToObject(features, "fetch", fetch);
 
 	return root;
 
